@@ -676,7 +676,7 @@ var insertBytes = []byte("\"\\,:{}[]0123456789eE-+. \n\ttrufalsn'/*\x00\x1f\x7f\
 // duplicate or drop a slice) to a document.
 func mutate(t *rapid.T, d []byte) ([]byte, string) {
 	out := append([]byte(nil), d...)
-	ops := []string{"delete", "insert", "replace", "truncate", "dup-slice", "drop-slice", "insert-any", "replace-any"}
+	ops := []string{"delete", "insert", "replace", "truncate", "dup-slice", "drop-slice", "insert-any", "replace-any", "truncate-in-rune", "truncate-in-rune"}
 	if len(d) == 0 {
 		ops = []string{"insert", "insert-any"}
 	}
@@ -706,6 +706,21 @@ func mutate(t *rapid.T, d []byte) ([]byte, string) {
 		out[pos] = rapid.Byte().Draw(t, "mutanybyte")
 	case "truncate":
 		out = out[:pos]
+	case "truncate-in-rune":
+		// the document ends in the middle of a multi-byte character (code that looks ahead for
+		// particular byte sequences reads past the end here)
+		var cuts []int
+		for i, b := range d {
+			if b >= 0x80 && b <= 0xbf {
+				cuts = append(cuts, i)
+			}
+		}
+		if len(cuts) == 0 {
+			d2 := append(append([]byte(nil), d[:pos]...), []byte("\"\xe2\x80\xa8x\"")...)
+			out = d2[:len(d2)-3+rapid.IntRange(0, 1).Draw(t, "cutlsep")]
+		} else {
+			out = out[:cuts[rapid.IntRange(0, len(cuts)-1).Draw(t, "cutat")]]
+		}
 	case "dup-slice":
 		end := rapid.IntRange(pos, len(d)).Draw(t, "mutend")
 		out = append(out[:end], append(append([]byte(nil), d[pos:end]...), d[end:]...)...)
